@@ -147,6 +147,36 @@ CHECKS = {
         "itself are out of scope of the property.",
         "DESIGN.md 3/C12",
     ),
+    "C05": (
+        "model_checking",
+        "explicit-state breadth-first search over operation histories on the real Harvester with a two-dict reference model compared in every state",
+        "BFS over histories of harvest_combos (regions x two function versions x "
+        "three overwrite policies x sync on/off), harvest_cases, add_ds, "
+        "save_merge_ds, expand_dims, drop_sel and 'new session' on a real "
+        "Harvester, for data names with and without extension and both engines. "
+        "Every transition replays its history on fresh objects; afterwards the "
+        "decoded disk file, the public full_ds and the file listing are compared "
+        "with a reference model of two dicts (memory, disk) that implements the "
+        "three policies, the conflict-must-raise rule and the name rule.",
+        "Depth / state bounds (stated in the evidence per configuration) stop "
+        "the search before the fix-point; unsynced-only points follow the "
+        "documented replace-by-disk rule.",
+        "DESIGN.md 3/C05",
+    ),
+    "C15": (
+        "model_checking",
+        "explicit-state breadth-first search over sampling histories on the real Sampler with scripted draws and a list-of-rows reference model",
+        "BFS to depth 3 (quick) / 4 (thorough) over sample_combos runs with "
+        "every scripted draw sequence over 2x2 choices, choice overrides, an "
+        "additional argument, extra constants, the numpy random-choice path "
+        "with pinned seeds, sow_samples+grow+reap with two batch sizes, and new "
+        "Sampler objects, for the pickle and csv engines. After every transition "
+        "the run's own frame, the in-memory table, the decoded file and a new "
+        "sampler's view are compared with the reference list of rows.",
+        "The table grows monotonically, so the search is depth-bounded, not a "
+        "fix-point; a state cap may stop expansion at the last level (reported).",
+        "DESIGN.md 3/C15",
+    ),
 }
 
 NOT_BUILT = "check not built yet in this session (design in DESIGN.md section 3)"
